@@ -89,3 +89,27 @@ package hpack
 //@   requires d != nil && int(d.dynTab.size) == nn(ssum(d.dynTab.ents)) && nn(ssum(d.dynTab.ents)) < 4294967296
 //@   ensures[update_above_allowed_maximum_is_an_error] result0 == nil ==> rvi(5, old(d.buf)) <= uint64(old(d.dynTab.allowedMaxSize)) && uint64(d.dynTab.maxSize) == rvi(5, old(d.buf)) && d.dynTab.size <= d.dynTab.maxSize
 //@   ensures[error_changes_nothing] result0 != nil ==> d.dynTab.maxSize == old(d.dynTab.maxSize) && d.dynTab.size == old(d.dynTab.size) && sameslice(d.buf, old(d.buf))
+
+// ---- C30: a pending dynamic-table size change is always announced before the next field ----
+
+//@ func appendVarInt
+//@   props C30
+//@   nopanic index,slice
+//@   modifies dst[0:cap(dst)]
+//@   ensures[at_least_one_octet_is_appended] len(result0) > len(dst) && len(result0) <= cap(result0)
+//@   ensures[grown_in_place_or_in_a_fresh_array] (base(result0) == base(dst) && off(result0) == off(dst) && cap(result0) == cap(dst)) || !allocated(result0)
+//@   loop 1 invariant len(dst) > old(len(dst)) && len(dst) <= cap(dst)
+//@   loop 1 invariant[grown_in_place_or_in_a_fresh_array] (base(dst) == base(old(dst)) && off(dst) == off(old(dst)) && cap(dst) == cap(old(dst))) || !allocated(dst)
+
+//@ func appendTableSize
+//@   props C30
+//@   nopanic index,slice
+//@   modifies dst[0:cap(dst)]
+//@   ensures[a_size_update_instruction_is_appended] len(result0) > len(dst)
+
+//@ func (*Encoder).WriteField
+//@   props C30
+//@   requires e != nil
+//@   modifies *
+//@   assert[a_pending_size_change_is_announced_and_cleared] at "e.searchTable(f)" :: old(e.tableSizeUpdate) ==> len(e.buf) > 0 && !e.tableSizeUpdate && e.minSize == 4294967295
+//@   assert[nothing_is_announced_without_a_pending_change] at "e.searchTable(f)" :: !old(e.tableSizeUpdate) ==> len(e.buf) == 0
